@@ -800,6 +800,12 @@ const NUMERIC_CORPUS: &[&[u8]] = &[
     b"binary: 0\n\nOK\n",
     b"binary: 03\nabc\nOK\n",
     b"binary: 0003\nabc\nOK\n",
+    // carriage returns around the framing line ends (only LF is a line end in this protocol)
+    b"binary: 3\nabc\r\nOK\n",
+    b"binary: 3\r\nabc\nOK\n",
+    b"foo: bar\r\nOK\r\n",
+    b"OK\r\n",
+    b"a: b\nlist_OK\r\nOK\n",
     // a frame whose only component so far is an empty binary part, then the end of the stream
     b"binary: 0\n\n",
     b"a: 1\nOK\nbinary: 0\n\n",
@@ -848,6 +854,47 @@ const NUMERIC_CORPUS: &[&[u8]] = &[
 /// two pipelined responses on one connection, the first larger than twice the blocking buffer, the
 /// second starting with a component larger than the buffer; one read completes the first response
 /// and carries a backlog of the second whose size sits on the buffer-size boundaries
+/// exhaustive small scope: EVERY sequence of up to `max` tokens of the protocol's own vocabulary (keyword
+/// prefixes, separators, line ends, one-letter keys), received whole, bytewise, and with the first and
+/// the last byte in a read of their own — what no random generator is needed for
+fn small_scope_ops(ops: &mut Vec<String>, max: usize) {
+    const TOK: &[&[u8]] = &[
+        b"l", b"b", b"O", b"A", b"x", b": ", b":", b" ", b"\n", b"OK\n", b"list_OK\n", b"binary: ", b"0\n", b"2\n", b"ab", b"ACK [1@0] {} m\n",
+    ];
+    let mut streams: Vec<Vec<u8>> = vec![vec![]];
+    let mut last: Vec<Vec<u8>> = vec![vec![]];
+    for _ in 0..max {
+        let mut next = Vec::new();
+        for s in &last {
+            for t in TOK {
+                let mut v = s.clone();
+                v.extend_from_slice(t);
+                next.push(v);
+            }
+        }
+        streams.extend(next.iter().cloned());
+        last = next;
+    }
+    for (i, st) in streams.iter().enumerate() {
+        if st.is_empty() {
+            continue;
+        }
+        let h = hex(st);
+        let n = st.len();
+        let fl = ["s", "a", "c"][i % 3];
+        ops.push(format!("proto.recv {fl} {h} {n} eof 1"));
+        if n >= 2 {
+            ops.push(format!("proto.recv {fl} {h} {} eof 1", vec!["1"; n].join(",")));
+            ops.push(format!("proto.recv {fl} {h} 1,{} eof 0", n - 1));
+            ops.push(format!("proto.recv {fl} {h} {},1 eof 0", n - 1));
+        }
+        // the same closed by `OK` (a complete response, if it is one), first byte in a read of its own
+        let mut c = st.clone();
+        c.extend_from_slice(b"OK\n");
+        ops.push(format!("proto.recv {fl} {} 1,{} eof 0", hex(&c), c.len() - 1));
+    }
+}
+
 fn big_pair_ops(ops: &mut Vec<String>, seed: u64) {
     big_pair_ops_sized(ops, seed, 9000 + (seed as usize % 7) * 611, false);
     // the first response beyond 64 KiB (the blocking buffer has doubled to 128 KiB when it completes)
@@ -1110,6 +1157,7 @@ pub fn gen(cfg: &Cfg) -> Vec<String> {
             }
         }
         "C09" => {
+            small_scope_ops(&mut ops, if cfg.thorough { 4 } else { 3 });
             big_pair_ops(&mut ops, cfg.seed);
             for c in NUMERIC_CORPUS {
                 for fl in ["s", "a"] {
